@@ -74,6 +74,9 @@ func (c *FnCtx) callSiteClauses(frame *Frame, st *State, in ssa.Instruction, key
 			old.vars[n] = st.env[p]
 		}
 		env.old = old
+		if l := innermostLoop(frame, in.Block()); l != nil {
+			env.iterHeap = st.loopIter[frame.id*1000+l.Ord]
+		}
 		// the actual arguments of the call: arg0, arg1, ... in SSA order (for a method call of a
 		// concrete type arg0 is the receiver; for an interface method call arg0 is the first argument)
 		var cc *ssa.CallCommon
@@ -84,6 +87,11 @@ func (c *FnCtx) callSiteClauses(frame *Frame, st *State, in ssa.Instruction, key
 			cc = &y.Call
 		case *ssa.Go:
 			cc = &y.Call
+		}
+		if snd, ok := in.(*ssa.Send); ok {
+			// a channel send (`at builtin.send#k`): arg0 is the channel, arg1 the value sent
+			env.vars["arg0"] = c.val(st, snd.Chan)
+			env.vars["arg1"] = c.val(st, snd.X)
 		}
 		if cc != nil {
 			for i, av := range cc.Args {
@@ -153,6 +161,10 @@ func (c *FnCtx) siteOrdinal(in ssa.Instruction, short string) int {
 				cc = &y.Call
 			case *ssa.MakeSlice:
 				if short == "builtin.make" {
+					n++
+				}
+			case *ssa.Send:
+				if short == "builtin.send" {
 					n++
 				}
 			}
